@@ -125,6 +125,7 @@ def sdl_view(ir):
     v = copy.deepcopy(ir)
     for t in v.types.values():
         t.strict = False
+        t.vanishing = False
         for ev in t.values:
             ev.value = ev.name
         for f in t.fields:
